@@ -12,6 +12,20 @@ on the real code that
  * the Schmidt-rank branch of `random_state_vector` is the Lean mirror model applied to the re-drawn raw numbers
    (`c19_sv_raw`; a drift here is reported as a note, the verdict is always the property's own predicate),
  * PGM / PBM are POVMs on spanning ensembles and P_opt^2 <= P_pgm <= P_opt, `measure` follows the Born rule.
+
+Deepening pass.  Every generator call of the kinds stream runs twice under two different poisoned states of NumPy's global generator, the first
+time inside a `Recorder` (c19_rec.py: proxy around `np.random.default_rng`, pass-through loggers around np.linalg.qr / svd / eigh and
+scipy.linalg.fractional_matrix_power).  This ties, for EVERY function, option combination and dim form (seeded and unseeded):
+ * the recorded events (generator constructions with their seed, draws: method + shape) to the Lean draw program `Toq.Rand.trace` (`c19_trace`),
+   and the recorded arrays to that program re-run on fresh generators of the seed (theorem draws_are_function_of_seed);
+ * the returned floats to the Lean post-processing models evaluated exactly on the raw draws / captured LAPACK factors: `c19_density`
+   (G G^H / tr, Bures factor as written), `c19_unitary_rel` (U^H G upper triangular with positive diagonal: unitary_post_unique), `c19_psd_rel`
+   (A A = H H: psd_post_is_abs), `c19_povm` (cores (A_y U)^H (A_y U) / sqrt(s_i s_j): povm_model_refines), `c19_sv_raw`, `c19_pgm` (S A_i S for the
+   captured normaliser S: pgm_model_refines), `c19_measure` (Born probability, prob > tol branch, post state, completeness check);
+ * the hypotheses of the theorems to the LAPACK factors the code actually used (V, Q unitary ...; U^H U = 1, s > 0, N = U diag(s) U^H; S = S^H >= 0,
+   S P S = 1) - counted and noted, never a verdict.
+A deviation of the code from a *model* (draw program, formula) that the property's own predicates do not see is a broken correspondence
+(common.CorrespondenceBroken semantics: the run goes on; exit 1 with no-failing-input-found when no concrete violation exists).
 """
 from __future__ import annotations
 
@@ -30,6 +44,7 @@ from toqito.measurement_props import is_povm
 from .. import qgen
 from ..exact import Pure, case_rng, present_nd, present_obj
 from ..exact import describe as pdescribe
+from .c19_rec import Recorder, dyadic, replay_events, same_bits, state_key, undyadic, unrat
 
 RULE = ("generators: every (function, option combination) for dimensions 1..6 - is_real on/off, k_param over None/1..dim, distance_metric haar/bures, scalar "
         "and list dim, Schmidt bound 0..min(dim), num_inputs 1..3 x num_outputs 1..4 (quick: a seeded subset of the larger grids) - each with seeds drawn from the "
@@ -44,6 +59,14 @@ RULE = ("generators: every (function, option combination) for dimensions 1..6 - 
         "permuted-stride layout; zero imaginary part also as float64, integer values also as int64), so lists mix dtypes and layouts; after every call the arguments "
         "(arrays, list / tuple objects, elements, the probability list) are compared with a deep snapshot")
 ASSUMPTIONS = [
+    "recording proxy: the generator functions reach NumPy's random machinery through the attribute np.random.default_rng and LAPACK through np.linalg.qr / svd / eigh, "
+    "scipy.linalg.fractional_matrix_power at call time (patched for the duration of one call); code that binds these at import time would show as a broken "
+    "correspondence (missing events), not as a silent pass",
+    "model-vs-code comparisons use TOL_MODEL = 1e-12 x scale for direct float algebra on the same raw numbers (density, pgm, measure probabilities), 1e-10 x scale "
+    "(TOL_REL) for relation residuals through LAPACK factors (unitary U^H G, psd A A = H H, povm cores; povm additionally + 1e-12 x cond(normaliser); post-measurement states 1e-10 + 1e-13 / prob); hypotheses of "
+    "theorems on captured LAPACK factors are checked to 1e-8 / 1e-9 and only counted",
+    "the Lean model of measure is three-valued at float thresholds (prob > tol, allclose of the completeness sum): inputs within a factor 1 +- 1e-3 of a threshold "
+    "are skipped (none generated)",
     "PCG64 streams, LAPACK QR / SVD / eigh and scipy's fractional_matrix_power are runtime behaviour outside the model; their outputs are checked through the "
     "relations the theorems assume (unitarity, PSD, rank, POVM) with tolerances 1e-10 (generators), 1e-9 (PGM/PBM), 1e-10 (measure)",
     "eigenvalues / singular values used for PSD and rank verdicts come from numpy.linalg (eigvalsh, svd) on the returned floats: PSD = min eigenvalue >= -1e-12 "
@@ -174,6 +197,7 @@ class Reporter:
     def __init__(self, ctx):
         self.ctx = ctx
         self.seen = set()
+        self.outputs = {}      # (function, configuration) -> {frozen output: seed}: different seeds must give different objects
 
     def fail(self, cls, what, info):
         key = (info.get("function"), cls)
@@ -196,12 +220,138 @@ def seeds_from(rng, n):
 
 # ------------------------------------------------------------------------------------------------ A. kinds
 
-def check_unitary(ctx, rep, dim, is_real, seed):
+TOL_REL = 1e-10          # exact relation residuals (model post-processing vs returned floats), relative to the stated scale
+TOL_MODEL = 1e-12        # returned floats vs the Lean model evaluated exactly on the same raw numbers (direct float algebra)
+_POISON = [0]
+_TRACE_CACHE = {}
+
+
+def lean_trace(ctx, call):
+    key = repr(sorted(call.items(), key=lambda kv: kv[0]))
+    if key not in _TRACE_CACHE:
+        _TRACE_CACHE[key] = ctx.lean().ask("c19_trace", call)
+    return _TRACE_CACHE[key]
+
+
+def broken(ctx, key, msg):
+    """the implementation no longer has the modelled structure: a broken correspondence (common.CorrespondenceBroken semantics), not a verdict"""
+    ctx.count("correspondence-broken/" + key)
+    if not any(m.startswith(key + ":") for m in ctx.broken):
+        ctx.broken.append(f"{key}: {msg}")
+
+
+class GenRun:
+    def __init__(self, st, out, rec, model):
+        self.st, self.out, self.rec, self.model = st, out, rec, model
+
+    @property
+    def ok(self):
+        return self.st == "ok"
+
+    def draws(self):
+        return self.rec.draws()
+
+    def exact_ready(self):
+        """raw draws captured and the draw program is the modelled one"""
+        return self.ok and self.model is not None and not self.model.get("reject") and self.rec.event_names() == self.model["events"]
+
+
+def gen_call(ctx, rep, fname, fn, pos, seed, lean_call, info, nondegenerate, model_ok):
+    """One generator call of the kinds stream.  The call is made twice, under two different *poisoned* states of NumPy's global
+    generator (np.random.seed(..) + a few global draws); the first time inside a Recorder.  Checked here, for every function, option
+    combination and dim form of the stream:
+      - the global generator's state is bitwise the same before and after the call (toqito_calls_do_not_disturb_global),
+      - a seeded call returns bitwise the same object both times (seeded_output_history_independent); an unseeded one does not
+        (non-degenerate configurations) and different seeds of one configuration give different objects,
+      - the recorded events (generator constructions, draws: method and shape) are the Lean draw program `Toq.Rand.trace`, every
+        construction received the caller's seed, and the recorded arrays are bitwise those of the draw program run on fresh
+        generators of that seed (draws_are_function_of_seed); the returned shape is `outShape`.
+    Deviations of the last group are a broken correspondence (the model no longer describes the code), not a verdict."""
+    _POISON[0] += 1
+    saved = np.random.get_state()
+    try:
+        np.random.seed(0xC19 + 2 * _POISON[0])
+        np.random.rand(3)
+        with Recorder() as rec:
+            st, out = _call(fn, *pos, seed=seed)
+        np.random.seed(0x19C + 2 * _POISON[0] + 1)
+        np.random.standard_normal(5)
+        before = state_key(np.random.get_state())
+        st2, out2 = _call(fn, *pos, seed=seed)
+        after = state_key(np.random.get_state())
+    finally:
+        np.random.set_state(saved)
+    call = f"{fname}({', '.join(repr(x) for x in pos)}, seed={seed})"
+    if rec.state_in != rec.state_out or before != after:
+        rep.fail("global-state-disturbed", f"{call} changed the state of NumPy's global generator", {**info, "theorem": "toqito_calls_do_not_disturb_global"})
+    f1 = freeze(out) if st == "ok" else ("raise", out.split(":")[0])
+    f2 = freeze(out2) if st2 == "ok" else ("raise", out2.split(":")[0])
+    if seed is not None:
+        ctx.count("seeding/same-seed-two-global-states")
+        if f1 != f2:
+            rep.fail("same-seed-different-output", f"{call} returned two different objects under two different states of NumPy's global generator",
+                     {**info, "theorem": "seeded_output_history_independent"})
+    elif nondegenerate and st == "ok" and st2 == "ok":
+        ctx.count("seeding/unseeded-twice")
+        if f1 == f2:
+            rep.fail("unseeded-reproducible", f"{call}: two unseeded calls returned bitwise the same object", {**info, "theorem": "(tested only)"})
+    if nondegenerate and st == "ok":
+        key = (fname, repr(pos))
+        seen = rep.outputs.setdefault(key, {})
+        other = seen.get(f1)
+        if other is not None and (other != seed or seed is None):
+            rep.fail("different-seeds-same-output", f"{fname}{tuple(pos)} returned bitwise the same object for seeds {other} and {seed}", {**info, "theorem": "(tested only)"})
+        seen.setdefault(f1, seed)
+    model = None
+    if model_ok:
+        model = lean_trace(ctx, lean_call)
+        if model.get("reject"):
+            if st == "ok":
+                broken(ctx, f"{fname}/model-rejects", f"the Lean draw program raises {model['reject']} on {call}, the code returns a value")
+            elif not out.startswith(model["reject"]):
+                broken(ctx, f"{fname}/exception", f"{call} raised {out.split(':')[0]}, the Lean draw program says {model['reject']}")
+            else:
+                ctx.count("draw-program/agrees-on-exception")
+        elif st == "ok":
+            ev = rec.event_names()
+            if ev != model["events"]:
+                broken(ctx, f"{fname}/draw-program", f"{call}: recorded events {ev} differ from the Lean draw program {model['events']}")
+            else:
+                ctx.count("draw-program/agree")
+                if any(s is not seed and s != seed for s in rec.construct_seeds()) or any((s is None) != (seed is None) for s in rec.construct_seeds()):
+                    broken(ctx, f"{fname}/construct-seed", f"{call}: default_rng was constructed with seeds {rec.construct_seeds()}")
+                elif seed is not None:
+                    want = replay_events(model["events"], seed)
+                    got = rec.draws()
+                    if len(want) != len(got) or not all(same_bits(x, y) for x, y in zip(want, got)):
+                        broken(ctx, f"{fname}/draw-values", f"{call}: the arrays drawn are not those of the draw program run on default_rng({seed})")
+                    else:
+                        ctx.count("draw-program/arrays-replayed-bitwise")
+            shape = list(np.asarray(out).shape) if not isinstance(out, list) else [len(out)] + list(np.asarray(out[0]).shape if out else [])
+            if fname == "random_orthonormal_basis" and isinstance(out, list):
+                shape = [len(out), len(np.asarray(out[0]).reshape(-1)) if out else 0]
+            if shape != model["shape"]:
+                broken(ctx, f"{fname}/shape", f"{call}: returned shape {shape}, Lean outShape {model['shape']}")
+    return GenRun(st, out, rec, model)
+
+
+def fr_arr(obj, e, shape):
+    return undyadic(obj, e, shape)
+
+
+def rel_fail(ctx, rep, fname, what, info):
+    """the returned floats are not the modelled post-processing of the raw draws: judged against the property's predicate already by the caller;
+    here the *formula* differs, which the kinds check may not see (e.g. a valid but different object) -> broken correspondence"""
+    broken(ctx, f"{fname}/post-processing", what)
+
+
+def check_unitary(ctx, rep, dim, is_real, seed, model_ok=True):
     args = {"kind": "unitary", "dim": dim, "is_real": is_real, "seed": seed}
     d = dim if isinstance(dim, int) else dim[0]
-    ctx.case(args, d >= 2, f"random_unitary/{'real' if is_real else 'complex'}/{'list' if isinstance(dim, list) else 'int'}")
-    st, U = _call(random_unitary, dim, is_real, seed=seed)
+    ctx.case(args, d >= 2, f"random_unitary/{'real' if is_real else 'complex'}/{'list' if isinstance(dim, list) else 'int'}{'/unseeded' if seed is None else ''}")
     info = {"function": "random_unitary", "args": args, "theorem": "unitary_post / unitary_post_csign / orthogonal_post_rsign"}
+    run = gen_call(ctx, rep, "random_unitary", random_unitary, [dim, is_real], seed, {"fn": "unitary", "dim": dim, "is_real": is_real}, info, d >= 2, model_ok)
+    st, U = run.st, run.out
     if st != "ok":
         return rep.fail("raises", f"random_unitary({dim}, is_real={is_real}, seed={seed}) raised {U}", {**info, "impl": U})
     U = np.asarray(U)
@@ -216,15 +366,33 @@ def check_unitary(ctx, rep, dim, is_real, seed):
         rep.fail("not-real", f"random_unitary({dim}, is_real=True, seed={seed}) has a non-zero imaginary part", {**info, "impl": U})
     if not is_real and d >= 2 and imag_zero(U):
         rep.fail("complex-is-real", f"random_unitary({dim}, is_real=False, seed={seed}) is a real matrix", {**info, "impl": U})
+    if run.exact_ready():
+        # the phase-fixed QR factor is pinned by: U^H G upper triangular with positive diagonal (qr_posdiag_unique / unitary_post_upperPos)
+        dr = run.draws()
+        G = dr[0] if is_real else dr[0] + 1j * dr[1]
+        eU, (jU,) = dyadic([U])
+        eG, (jG,) = dyadic([G])
+        res = ctx.lean().ask("c19_unitary_rel", {"dim": d, "U": jU, "G": jG})
+        T = fr_arr(res["rel"], eU + eG, (d, d))
+        scale = max(1.0, float(np.abs(G).max())) * d
+        low = max([abs(T[i, j]) for i in range(d) for j in range(i)], default=0.0)
+        dg = np.diag(T)
+        if low > TOL_REL * scale or float(np.abs(dg.imag).max()) > TOL_REL * scale or float(dg.real.min()) < -TOL_REL * scale:
+            rel_fail(ctx, rep, "random_unitary", f"random_unitary({dim}, is_real={is_real}, seed={seed}): U^H G is not upper triangular with positive diagonal for the Ginibre draw G "
+                     f"(below-diagonal {low:.2e}, diagonal {dg.tolist()})", info)
+        else:
+            ctx.count("relation/unitary-is-phase-fixed-qr-factor")
 
 
-def check_density(ctx, rep, dim, is_real, k_param, metric, seed):
+def check_density(ctx, rep, dim, is_real, k_param, metric, seed, model_ok=True):
     args = {"kind": "density", "dim": dim, "is_real": is_real, "k_param": k_param, "distance_metric": metric, "seed": seed}
     k = dim if k_param is None else k_param
-    ctx.case(args, dim >= 2, f"random_density_matrix/{metric}/{'real' if is_real else 'complex'}/{'k=None' if k_param is None else ('k=dim' if k == dim else 'k<dim')}")
-    st, rho = _call(random_density_matrix, dim, is_real, k_param, metric, seed=seed)
+    ctx.case(args, dim >= 2, f"random_density_matrix/{metric}/{'real' if is_real else 'complex'}/{'k=None' if k_param is None else ('k=dim' if k == dim else 'k<dim')}{'/unseeded' if seed is None else ''}")
     info = {"function": "random_density_matrix", "args": args, "theorem": "density_post / density_bures_post", "expected": f"density operator of rank <= {k}"}
     call = f"random_density_matrix({dim}, is_real={is_real}, k_param={k_param}, distance_metric='{metric}', seed={seed})"
+    run = gen_call(ctx, rep, "random_density_matrix", random_density_matrix, [dim, is_real, k_param, metric], seed,
+                   {"fn": "density", "dim": dim, "is_real": is_real, "k_param": k_param, "bures": metric == "bures"}, info, dim >= 2, model_ok)
+    st, rho = run.st, run.out
     if st != "ok":
         return rep.fail("raises/" + rho.split(":")[0], f"{call} raised {rho}", {**info, "impl": rho})
     rho = np.asarray(rho)
@@ -244,14 +412,38 @@ def check_density(ctx, rep, dim, is_real, k_param, metric, seed):
         rep.fail("rank>k", f"{call}: numerical rank {rk} > k_param = {k}", {**info, "impl": rho, "rank": rk})
     if is_real and not imag_zero(rho):
         rep.fail("not-real", f"{call} has a non-zero imaginary part", {**info, "impl": rho})
+    if run.exact_ready() and (metric != "bures" or seed is not None):
+        # mirror model: G G^H / tr(G G^H) for the final factor, exactly on the raw draws (densityModel_refines)
+        dr = run.draws()
+        G = dr[0] if is_real else dr[0] + 1j * dr[1]
+        if metric == "bures":
+            Uo = np.asarray(random_unitary(dim, is_real, seed=seed))
+            e, (jU, jG) = dyadic([Uo, G])
+            res = ctx.lean().ask("c19_density", {"dim": dim, "k": k, "bures": True, "U": jU, "G": jG})
+        else:
+            e, (jG,) = dyadic([G])
+            res = ctx.lean().ask("c19_density", {"dim": dim, "k": k, "bures": False, "G": jG})
+        if res.get("reject"):
+            return broken(ctx, "random_density_matrix/model-rejects", f"{call}: Lean bures factor rejects, the code returned")
+        t = complex(Fraction(res["tr"]["re"][0]), Fraction(res["tr"]["im"][0]))
+        if res["tr"]["im"][0] != 0 or res["tr"]["re"][0] <= 0:
+            return ctx.count("relation/density-zero-trace")
+        tre = res["tr"]["re"][0]
+        want = np.array([float(Fraction(a, tre)) + 1j * float(Fraction(b, tre)) for a, b in zip(res["num"]["re"], res["num"]["im"])]).reshape(dim, dim)
+        diff = float(np.abs(want - rho).max())
+        if diff > TOL_MODEL * 10:
+            rel_fail(ctx, rep, "random_density_matrix", f"{call} differs from F F^H / tr(F F^H) for the modelled final factor by {diff:.3e}", info)
+        else:
+            ctx.count("relation/density-equals-model/" + metric)
 
 
-def check_psd(ctx, rep, dim, is_real, seed):
+def check_psd(ctx, rep, dim, is_real, seed, model_ok=True):
     args = {"kind": "psd", "dim": dim, "is_real": is_real, "seed": seed}
-    ctx.case(args, dim >= 2, f"random_psd_operator/{'real' if is_real else 'complex'}")
-    st, A = _call(random_psd_operator, dim, is_real, seed=seed)
-    info = {"function": "random_psd_operator", "args": args, "theorem": "psd_post"}
+    ctx.case(args, dim >= 2, f"random_psd_operator/{'real' if is_real else 'complex'}{'/unseeded' if seed is None else ''}")
+    info = {"function": "random_psd_operator", "args": args, "theorem": "psd_post / psd_post_is_abs"}
     call = f"random_psd_operator({dim}, is_real={is_real}, seed={seed})"
+    run = gen_call(ctx, rep, "random_psd_operator", random_psd_operator, [dim, is_real], seed, {"fn": "psd", "dim": dim, "is_real": is_real}, info, dim >= 2, model_ok)
+    st, A = run.st, run.out
     if st != "ok":
         return rep.fail("raises", f"{call} raised {A}", {**info, "impl": A})
     A = np.asarray(A)
@@ -266,14 +458,45 @@ def check_psd(ctx, rep, dim, is_real, seed):
         rep.fail("not-psd", f"{call}: min eigenvalue {min_eig(A):.3e}", {**info, "impl": A})
     if is_real and not imag_zero(A):
         rep.fail("not-real", f"{call} has a non-zero imaginary part", {**info, "impl": A})
+    if run.exact_ready():
+        # A is the positive semidefinite square root of H^2, H = (R^H + R)/2 the Hermitised draw (psd_post_is_abs): A A = H H exactly evaluated
+        dr = run.draws()
+        R = dr[0] if is_real else dr[0] + 1j * dr[1]
+        e, (jA, jR) = dyadic([A, R])
+        res = ctx.lean().ask("c19_psd_rel", {"dim": dim, "A": jA, "R": jR})
+        aa = fr_arr(res["aa"], 2 * e, (dim, dim))
+        hh = fr_arr(res["hh4"], 2 * e, (dim, dim)) / 4
+        sc = max(1.0, float(np.abs(hh).max()))
+        diff = float(np.abs(aa - hh).max())
+        if diff > TOL_REL * sc * dim:
+            rel_fail(ctx, rep, "random_psd_operator", f"{call}: A A differs from H H (H the Hermitised draw) by {diff:.3e}", info)
+        else:
+            ctx.count("relation/psd-is-abs-of-hermitised-draw")
+        # hypotheses of psd_post_is_abs on the captured LAPACK factors: V unitary, H = V diag(w) V^H; Q unitary, Q^H V upper triangular
+        eg, qr = run.rec.lapack_calls("eigh"), run.rec.lapack_calls("qr")
+        if len(eg) == 1 and len(qr) == 1:
+            w, V = eg[0][2][0], eg[0][2][1]
+            Q = qr[0][2][0]
+            H = eg[0][1][0]
+            h1 = float(np.abs(V.conj().T @ V - np.eye(dim)).max())
+            h2 = float(np.abs((V * w) @ V.conj().T - H).max())
+            h3 = float(np.abs(Q.conj().T @ Q - np.eye(dim)).max())
+            T = Q.conj().T @ V
+            h4 = max([abs(T[i, j]) for i in range(dim) for j in range(i)], default=0.0)
+            if max(h1, h3, h4) > 1e-8 or h2 > 1e-8 * sc:
+                ctx.count("lapack-relation/psd-hypotheses-not-met")
+                ctx.note(f"{call}: the captured eigh / qr factors do not satisfy the hypotheses of psd_post_is_abs ({h1:.1e}, {h2:.1e}, {h3:.1e}, {h4:.1e})")
+            else:
+                ctx.count("lapack-relation/psd-hypotheses-hold")
 
 
-def check_basis(ctx, rep, dim, is_real, seed):
+def check_basis(ctx, rep, dim, is_real, seed, model_ok=True):
     args = {"kind": "basis", "dim": dim, "is_real": is_real, "seed": seed}
-    ctx.case(args, dim >= 2, f"random_orthonormal_basis/{'real' if is_real else 'complex'}")
-    st, B = _call(random_orthonormal_basis, dim, is_real, seed=seed)
+    ctx.case(args, dim >= 2, f"random_orthonormal_basis/{'real' if is_real else 'complex'}{'/unseeded' if seed is None else ''}")
     info = {"function": "random_orthonormal_basis", "args": args, "theorem": "orthonormal_basis_post"}
     call = f"random_orthonormal_basis({dim}, is_real={is_real}, seed={seed})"
+    run = gen_call(ctx, rep, "random_orthonormal_basis", random_orthonormal_basis, [dim, is_real], seed, {"fn": "basis", "dim": dim, "is_real": is_real}, info, dim >= 2, model_ok)
+    st, B = run.st, run.out
     if st != "ok":
         return rep.fail("raises", f"{call} raised {B}", {**info, "impl": B})
     if len(B) != dim or any(np.asarray(b).reshape(-1).shape != (dim,) for b in B):
@@ -286,29 +509,28 @@ def check_basis(ctx, rep, dim, is_real, seed):
         rep.fail("not-orthonormal", f"{call}: Gram matrix differs from the identity by {r:.3e}", {**info, "impl": B})
     if is_real and not imag_zero(M):
         rep.fail("not-real", f"{call} has a non-zero imaginary part", {**info, "impl": B})
+    if seed is not None:
+        # the basis is the list of columns of random_unitary(dim, is_real, seed)
+        U = np.asarray(random_unitary(dim, is_real, seed=seed))
+        if not same_bits(np.ascontiguousarray(M), np.ascontiguousarray(U)):
+            rel_fail(ctx, rep, "random_orthonormal_basis", f"{call} is not the list of columns of random_unitary({dim}, {is_real}, seed={seed})", info)
+        else:
+            ctx.count("relation/basis-is-columns-of-unitary")
 
 
-def sv_redraw(d0, d1, k, is_real, seed):
-    """raw draws of the Schmidt branch in program order, as exact integers (numerators over 2^53)"""
-    gen = np.random.default_rng(seed=seed)
-    a = gen.random((d0 * k, 1))
-    b = gen.random((d1 * k, 1))
-    ai = np.zeros_like(a)
-    bi = np.zeros_like(b)
-    if not is_real:
-        ai = gen.random((d0 * k, 1))
-        bi = gen.random((d1 * k, 1))
+def sv_ints(parts):
+    """raw uniform draws as exact integers (numerators over 2^53)"""
     S = 2 ** 53
-
-    def ints(x):
-        out = []
-        for v in x.reshape(-1):
+    out = []
+    for x in parts:
+        row = []
+        for v in np.asarray(x).reshape(-1):
             f = Fraction(float(v)) * S
             if f.denominator != 1:
                 return None
-            out.append(int(f))
-        return out
-    return [ints(a), ints(ai), ints(b), ints(bi)]
+            row.append(int(f))
+        out.append(row)
+    return out
 
 
 def check_state_vector(ctx, rep, dim, is_real, k_param, seed, model_ok):
@@ -317,11 +539,13 @@ def check_state_vector(ctx, rep, dim, is_real, k_param, seed, model_ok):
     schmidt_branch = 0 < k_param < min(dims)
     listed = isinstance(dim, list)
     total = dims[0] * dims[1] if (listed or schmidt_branch) else dim
-    ctx.case(args, total >= 2, f"random_state_vector/{'list' if listed else 'int'}/{'schmidt' if schmidt_branch else 'plain'}/{'real' if is_real else 'complex'}")
-    st, v = _call(random_state_vector, dim, is_real, k_param, seed=seed)
-    info = {"function": "random_state_vector", "args": args, "theorem": "stateVector_schmidt_le_k / normalise_unit",
+    ctx.case(args, total >= 2, f"random_state_vector/{'list' if listed else 'int'}/{'schmidt' if schmidt_branch else 'plain'}/{'real' if is_real else 'complex'}{'/unseeded' if seed is None else ''}")
+    info = {"function": "random_state_vector", "args": args, "theorem": "stateVector_schmidt_le_k / stateVector_plain_schmidt_le_k / normalise_unit",
             "expected": f"unit vector of length {total}" + (f" with Schmidt rank <= {k_param} across {dims}" if k_param > 0 and (listed or schmidt_branch) else "")}
     call = f"random_state_vector({dim}, is_real={is_real}, k_param={k_param}, seed={seed})"
+    run = gen_call(ctx, rep, "random_state_vector", random_state_vector, [dim, is_real, k_param], seed,
+                   {"fn": "state_vector", "dim": dim, "is_real": is_real, "k_param": k_param}, info, total >= 2, model_ok)
+    st, v = run.st, run.out
     if st != "ok":
         return rep.fail("raises/" + v.split(":")[0] + ("/list-dim" if listed else ""), f"{call} raised {v}", {**info, "impl": v})
     v = np.asarray(v)
@@ -339,36 +563,47 @@ def check_state_vector(ctx, rep, dim, is_real, k_param, seed, model_ok):
         rk = num_rank(flat.reshape(dims[0], dims[1]))
         if rk > k_param:
             rep.fail("schmidt>k", f"{call}: Schmidt rank {rk} > {k_param}", {**info, "impl": v, "schmidt_rank": rk})
-    if schmidt_branch and model_ok:
-        # mirror model on the re-drawn raw numbers (tie between `svRaw` and the code); drift is a note, never a verdict
-        parts = sv_redraw(dims[0], dims[1], k_param, is_real, seed)
-        if any(p is None for p in parts):
-            ctx.count("sv-mirror/not-dyadic-53")
-            return
-        res = ctx.lean().ask("c19_sv_raw", {"k": k_param, "d0": dims[0], "d1": dims[1], "a_re": parts[0], "a_im": parts[1], "b_re": parts[2], "b_im": parts[3]})
-        if res.get("reject"):
-            ctx.count("sv-mirror/reject")
-            return
-        if res["raw_re"] != res["amp_re"] or res["raw_im"] != res["amp_im"]:
-            rep.fail("model-mirror-vs-closed-form", "Lean svRaw and svAmp disagree (model defect; theorem stateVector_mirror_eq_closed_form)",
-                     {"function": "c19_sv_raw", "args": args, "model": res})
-        raw = np.array([float(Fraction(r, 2 ** 106)) + 1j * float(Fraction(i, 2 ** 106)) for r, i in zip(res["raw_re"], res["raw_im"])])
-        want = raw / np.linalg.norm(raw)
-        if np.abs(want - flat).max() <= 1e-12:
-            ctx.count("sv-mirror/agree")
+    if not run.exact_ready():
+        return
+    dr = run.draws()
+    if not schmidt_branch:
+        raw = dr[0] if is_real else dr[0] + 1j * dr[1]
+        want = np.divide(raw, np.linalg.norm(raw))
+        if not same_bits(want, v):
+            rel_fail(ctx, rep, "random_state_vector", f"{call} is not the normalised draw", info)
         else:
-            ctx.count("sv-mirror/drift")
-            if "sv-drift" not in ctx.extra:
-                ctx.extra["sv-drift"] = {"args": args, "max_abs_diff": float(np.abs(want - flat).max())}
-                ctx.note("random_state_vector no longer equals the Lean mirror model on the re-drawn raw numbers (the kind of the output is still checked)")
+            ctx.count("relation/state-vector-plain-is-normalised-draw")
+        return
+    # mirror model on the raw numbers the code drew (tie between `svRaw` and the code)
+    a, b = dr[0], dr[1]
+    ai, bi = (np.zeros_like(a), np.zeros_like(b)) if is_real else (dr[2], dr[3])
+    parts = sv_ints([a, ai, b, bi])
+    if parts is None:
+        ctx.count("sv-mirror/not-dyadic-53")
+        return
+    res = ctx.lean().ask("c19_sv_raw", {"k": k_param, "d0": dims[0], "d1": dims[1], "a_re": parts[0], "a_im": parts[1], "b_re": parts[2], "b_im": parts[3]})
+    if res.get("reject"):
+        ctx.count("sv-mirror/reject")
+        return
+    if res["raw_re"] != res["amp_re"] or res["raw_im"] != res["amp_im"]:
+        rep.fail("model-mirror-vs-closed-form", "Lean svRaw and svAmp disagree (model defect; theorem stateVector_mirror_eq_closed_form)",
+                 {"function": "c19_sv_raw", "args": args, "model": res})
+    raw = np.array([float(Fraction(r, 2 ** 106)) + 1j * float(Fraction(i, 2 ** 106)) for r, i in zip(res["raw_re"], res["raw_im"])])
+    want = raw / np.linalg.norm(raw)
+    if np.abs(want - flat).max() <= 1e-12:
+        ctx.count("sv-mirror/agree")
+    else:
+        ctx.count("sv-mirror/drift")
+        rel_fail(ctx, rep, "random_state_vector", f"{call} differs from the Lean mirror model svRaw on the raw numbers by {float(np.abs(want - flat).max()):.3e}", info)
 
 
-def check_states(ctx, rep, n, d, seed):
+def check_states(ctx, rep, n, d, seed, model_ok=True):
     args = {"kind": "states", "n": n, "d": d, "seed": seed}
-    ctx.case(args, d >= 2, "random_states")
-    st, S = _call(random_states, n, d, seed=seed)
+    ctx.case(args, d >= 2, "random_states" + ("/unseeded" if seed is None else ""))
     info = {"function": "random_states", "args": args, "theorem": "normalise_unit"}
     call = f"random_states({n}, {d}, seed={seed})"
+    run = gen_call(ctx, rep, "random_states", random_states, [n, d], seed, {"fn": "states", "n": n, "d": d}, info, d >= 2, model_ok)
+    st, S = run.st, run.out
     if st != "ok":
         return rep.fail("raises", f"{call} raised {S}", {**info, "impl": S})
     if len(S) != n or any(np.asarray(s).shape != (d, 1) for s in S):
@@ -377,24 +612,33 @@ def check_states(ctx, rep, n, d, seed):
         if not np.all(np.isfinite(s)) or abs(float(np.linalg.norm(s)) - 1) > 1e-12:
             rep.fail("not-unit", f"{call}: a vector of norm {float(np.linalg.norm(s))!r}", {**info, "impl": S})
             break
+    if run.exact_ready():
+        dr = run.draws()
+        samples = dr[0] + 1j * dr[1]
+        want = samples / np.linalg.norm(samples, axis=1)[:, np.newaxis]
+        if not all(same_bits(np.ascontiguousarray(w.reshape(-1, 1)), np.ascontiguousarray(s)) for w, s in zip(want, S)):
+            rel_fail(ctx, rep, "random_states", f"{call}: the vectors are not the normalised rows of the complex normal draw", info)
+        else:
+            ctx.count("relation/states-are-normalised-rows")
 
 
 def check_povm(ctx, rep, dim, ni, no, seed, model_ok):
     args = {"kind": "povm", "dim": dim, "num_inputs": ni, "num_outputs": no, "seed": seed}
-    ctx.case(args, dim >= 2 and no >= 2, f"random_povm/d={dim}")
-    st, P = _call(random_povm, dim, ni, no, seed=seed)
-    info = {"function": "random_povm", "args": args, "theorem": "povm_post / povm_layout"}
+    ctx.case(args, dim >= 2 and no >= 2, f"random_povm/d={dim}" + ("/unseeded" if seed is None else ""))
+    info = {"function": "random_povm", "args": args, "theorem": "povm_post / povm_post_general / povm_layout"}
     call = f"random_povm({dim}, {ni}, {no}, seed={seed})"
+    run = gen_call(ctx, rep, "random_povm", random_povm, [dim, ni, no], seed, {"fn": "povm", "dim": dim, "num_inputs": ni, "num_outputs": no}, info, dim >= 2 and no >= 2, model_ok)
+    st, P = run.st, run.out
     if st != "ok":
         return rep.fail("raises", f"{call} raised {P}", {**info, "impl": P})
     P = np.asarray(P)
     if P.shape != (dim, dim, ni, no):
         return rep.fail("shape", f"{call} has shape {P.shape}, expected {(dim, dim, ni, no)}", {**info, "impl": P})
+    g = run.draws()[0] if run.exact_ready() else None
     for x in range(ni):
         bad = povm_defects([P[:, :, x, y] for y in range(no)], TOL_GEN, TOL_GEN)
-        if bad and not povm_defects([P[:, :, x, y] for y in range(no)], 1e-6, 1e-6):
-            # residual in (1e-10, 1e-6]: rounding amplified by an ill-conditioned normaliser?  re-draw the raw blocks and look
-            g = np.random.default_rng(seed=seed).normal(size=(ni, no, dim, dim))
+        if bad and not povm_defects([P[:, :, x, y] for y in range(no)], 1e-6, 1e-6) and g is not None:
+            # residual in (1e-10, 1e-6]: rounding amplified by an ill-conditioned normaliser?  look at the raw blocks the code drew
             cond = float(np.linalg.cond(sum(b.T @ b for b in g[x])))
             resid = exact_sum_resid([P[:, :, x, y] for y in range(no)], np.eye(dim, dtype=complex))
             if resid <= 1e-14 * cond:
@@ -403,6 +647,43 @@ def check_povm(ctx, rep, dim, ni, no, seed, model_ok):
         if bad:
             rep.fail("not-povm", f"{call}: input setting {x} is not a POVM: {bad[:3]}", {**info, "impl": P, "input": x, "defects": bad})
             break
+    svds = run.rec.lapack_calls("svd")
+    if g is None or len(svds) != ni:
+        if g is not None:
+            broken(ctx, "random_povm/svd-calls", f"{call}: {len(svds)} calls of np.linalg.svd, the model: one per input setting ({ni})")
+        return
+    xs = range(ni) if ni <= 2 else [0, ni - 1]
+    for x in xs:
+        # mirror model on the raw blocks and the captured SVD factors: M_y[i,j] = ((A_y U)^H (A_y U))[i,j] / sqrt(s_i s_j)   (povm_model_entry)
+        N_in = np.asarray(svds[x][1][0])
+        U, s = np.asarray(svds[x][2][0]), np.asarray(svds[x][2][1])
+        eA, blocks = dyadic([g[x][y] for y in range(no)])
+        eU, (jU,) = dyadic([U])
+        eS, (jS,) = dyadic([s])
+        res = ctx.lean().ask("c19_povm", {"dim": dim, "num_outputs": no, "A": [{"re": b["re"]} for b in blocks], "U": jU, "s": jS["re"]})
+        N = fr_arr(res["normaliser"], 2 * eA, (dim, dim))
+        sc = max(1.0, float(np.abs(N).max()))
+        cond = float(s.max() / s.min()) if s.min() > 0 else float("inf")
+        if float(np.abs(N - N_in).max()) > TOL_REL * sc:
+            rel_fail(ctx, rep, "random_povm", f"{call}: the matrix handed to np.linalg.svd for input {x} is not sum_y A_y^H A_y of the drawn blocks", info)
+            continue
+        # hypotheses of povm_post on the captured factors: U^H U = 1, s > 0, N = U diag(s) U^H
+        gram = fr_arr(res["gram"], 2 * eU, (dim, dim))
+        recon = fr_arr(res["recon"], 2 * eU + eS, (dim, dim))
+        if not (s.min() > 0) or float(np.abs(gram - np.eye(dim)).max()) > 1e-8 or float(np.abs(recon - N).max()) > 1e-8 * sc:
+            ctx.count("lapack-relation/povm-hypotheses-not-met")
+            ctx.note(f"{call}: the captured SVD factors of input {x} do not satisfy the hypotheses of povm_post")
+            continue
+        ctx.count("lapack-relation/povm-hypotheses-hold")
+        worst = 0.0
+        for y in range(no):
+            core = fr_arr(res["cores"][y], 2 * eA + 2 * eU, (dim, dim))
+            want = core / np.sqrt(np.outer(s, s))
+            worst = max(worst, float(np.abs(want - P[:, :, x, y]).max()))
+        if worst > TOL_REL + 1e-12 * cond:
+            rel_fail(ctx, rep, "random_povm", f"{call}: input {x} differs from (A_y U D^-1/2)^H (A_y U D^-1/2) on the drawn blocks and captured SVD by {worst:.3e}", info)
+        else:
+            ctx.count("relation/povm-equals-model")
 
 
 def check_povm_layout(ctx, rep, dim, ni, no, model_ok):
@@ -418,12 +699,13 @@ def check_povm_layout(ctx, rep, dim, ni, no, model_ok):
                  {"function": "c19_povm_layout", "args": {"dim": dim, "ni": ni, "no": no}, "model": res})
 
 
-def check_circulant(ctx, rep, dim, seed):
+def check_circulant(ctx, rep, dim, seed, model_ok=True):
     args = {"kind": "circulant", "dim": dim, "seed": seed}
-    ctx.case(args, dim >= 3, "random_circulant_gram_matrix")
-    st, C = _call(random_circulant_gram_matrix, dim, seed=seed)
+    ctx.case(args, dim >= 3, "random_circulant_gram_matrix" + ("/unseeded" if seed is None else ""))
     info = {"function": "random_circulant_gram_matrix", "args": args, "theorem": "circulant_gram_psd / circulant_gram_circulant"}
     call = f"random_circulant_gram_matrix({dim}, seed={seed})"
+    run = gen_call(ctx, rep, "random_circulant_gram_matrix", random_circulant_gram_matrix, [dim], seed, {"fn": "circulant", "dim": dim}, info, dim >= 1, model_ok)
+    st, C = run.st, run.out
     if st != "ok":
         return rep.fail("raises", f"{call} raised {C}", {**info, "impl": C})
     C = np.asarray(C)
@@ -443,18 +725,38 @@ def check_circulant(ctx, rep, dim, seed):
             worst = max(worst, abs(C[i, j] - C[(i - j) % dim, 0]))
     if worst > TOL_GEN:
         rep.fail("not-circulant", f"{call}: entry (i,j) differs from entry ((i-j) mod d, 0) by {worst:.3e}", {**info, "impl": C})
+    if run.exact_ready():
+        # spec circGramRe with c = 1/sqrt(d), omega = exp(-2 pi i/d):  C[i,j] = (1/d) sum_k lam_k cos(2 pi k (j - i)/d)
+        lam = run.draws()[0]
+        want = np.array([[sum(lam[k] * np.cos(2 * np.pi * k * (j - i) / dim) for k in range(dim)) / dim for j in range(dim)] for i in range(dim)])
+        if float(np.abs(want - C).max()) > 1e-12:
+            rel_fail(ctx, rep, "random_circulant_gram_matrix", f"{call} differs from Re(F^H diag(lam) F) of the drawn eigenvalues by {float(np.abs(want - C).max()):.3e}", info)
+        else:
+            ctx.count("relation/circulant-equals-spec")
 
 
-def check_ginibre(ctx, rep, n, m, seed):
+def check_ginibre(ctx, rep, n, m, seed, model_ok=True):
     args = {"kind": "ginibre", "n": n, "m": m, "seed": seed}
-    ctx.case(args, n * m >= 2, "random_ginibre")
-    st, G = _call(random_ginibre, n, m, seed=seed)
+    ctx.case(args, n * m >= 2, "random_ginibre" + ("/unseeded" if seed is None else ""))
     info = {"function": "random_ginibre", "args": args, "theorem": "(shape only)"}
+    run = gen_call(ctx, rep, "random_ginibre", random_ginibre, [n, m], seed, {"fn": "ginibre", "n": n, "m": m}, info, True, model_ok)
+    st, G = run.st, run.out
     if st != "ok":
         return rep.fail("raises", f"random_ginibre({n}, {m}, seed={seed}) raised {G}", {**info, "impl": G})
     G = np.asarray(G)
     if G.shape != (n, m) or not np.iscomplexobj(G) or not np.all(np.isfinite(G)):
         rep.fail("shape", f"random_ginibre({n}, {m}) has shape {G.shape}, dtype {G.dtype}", {**info, "impl": G})
+    elif run.exact_ready():
+        dr = run.draws()
+        if not same_bits((dr[0] + 1j * dr[1]) / np.sqrt(2), G):
+            rel_fail(ctx, rep, "random_ginibre", f"random_ginibre({n}, {m}, seed={seed}) is not (N1 + i N2)/sqrt(2) of the two normal draws", info)
+        else:
+            ctx.count("relation/ginibre-equals-formula")
+
+
+def with_none(seeds, rng, one_in=2):
+    """the seed list of a configuration, sometimes followed by an unseeded call (seed=None: must be valid, must not be reproducible)"""
+    return list(seeds) + ([None] if rng.integers(one_in) == 0 else [])
 
 
 def run_kinds(ctx, rep, model_ok):
@@ -465,28 +767,28 @@ def run_kinds(ctx, rep, model_ok):
     # corpus: the inputs on which the tree as first read violated the property (smallest representatives first)
     check_state_vector(ctx, rep, [2, 2], False, 0, 7, model_ok)
     check_state_vector(ctx, rep, [2, 3], True, 2, 7, model_ok)
-    check_density(ctx, rep, 3, False, 1, "bures", 7)
-    check_density(ctx, rep, 3, False, 2, "bures", 7)
+    check_density(ctx, rep, 3, False, 1, "bures", 7, model_ok)
+    check_density(ctx, rep, 3, False, 2, "bures", 7, model_ok)
     for s in range(8):  # (1 + U) G = 0 for dim 1, U = -1
-        check_density(ctx, rep, 1, True, None, "bures", s)
+        check_density(ctx, rep, 1, True, None, "bures", s, model_ok)
     for d in dims:
         for is_real in (False, True):
             for form in (d, [d, d]):
-                for s in seeds_from(rng, ns + 1):
-                    check_unitary(ctx, rep, form, is_real, s)
-            for s in seeds_from(rng, ns + 1):
-                check_psd(ctx, rep, d, is_real, s)
-                check_basis(ctx, rep, d, is_real, s)
+                for s in with_none(seeds_from(rng, ns + 1), rng):
+                    check_unitary(ctx, rep, form, is_real, s, model_ok)
+            for s in with_none(seeds_from(rng, ns + 1), rng):
+                check_psd(ctx, rep, d, is_real, s, model_ok)
+                check_basis(ctx, rep, d, is_real, s, model_ok)
             for metric in ("haar", "bures"):
                 for k in [None] + list(range(1, d + 1)):
-                    for s in seeds_from(rng, ns):
-                        check_density(ctx, rep, d, is_real, k, metric, s)
-        for s in seeds_from(rng, ns + 1):
-            check_circulant(ctx, rep, d, s)
+                    for s in with_none(seeds_from(rng, ns), rng, 3):
+                        check_density(ctx, rep, d, is_real, k, metric, s, model_ok)
+        for s in with_none(seeds_from(rng, ns + 1), rng):
+            check_circulant(ctx, rep, d, s, model_ok)
         for n in range(1, 5):
-            for s in seeds_from(rng, ns):
-                check_states(ctx, rep, n, d, s)
-                check_ginibre(ctx, rep, d, n, s)
+            for s in with_none(seeds_from(rng, ns), rng, 3):
+                check_states(ctx, rep, n, d, s, model_ok)
+                check_ginibre(ctx, rep, d, n, s, model_ok)
     # state vectors: scalar dims 1..6, list dims [d0,d1] with d0*d1 <= 36, k over 0..min(dim)
     sv_cfgs = []
     for d in dims:
@@ -502,7 +804,7 @@ def run_kinds(ctx, rep, model_ok):
         sv_cfgs = keep + [rest[int(i)] for i in sorted(pick)]
     for dim, k in sv_cfgs:
         for is_real in (False, True):
-            for s in seeds_from(rng, ns):
+            for s in with_none(seeds_from(rng, ns), rng, 4):
                 check_state_vector(ctx, rep, dim, is_real, k, s, model_ok)
     # POVMs
     povm_cfgs = list(itertools.product(dims, range(1, 4), range(1, 5)))
@@ -512,10 +814,17 @@ def run_kinds(ctx, rep, model_ok):
         pick = rng.choice(len(rest), size=24, replace=False)
         povm_cfgs = keep + [rest[int(i)] for i in sorted(pick)]
     for d, ni, no in povm_cfgs:
-        for s in seeds_from(rng, ns):
+        for s in with_none(seeds_from(rng, ns), rng, 3):
             check_povm(ctx, rep, d, ni, no, s, model_ok)
     for d, ni, no in [(2, 2, 3), (3, 1, 4), (1, 3, 2), (4, 3, 1)]:
         check_povm_layout(ctx, rep, d, ni, no, model_ok)
+    # malformed dim of random_unitary: a non-square list is rejected with ValueError (the draw program agrees on the exception)
+    for dm in ([2, 3], [1, 4]):
+        run = gen_call(ctx, rep, "random_unitary", random_unitary, [dm, False], 5, {"fn": "unitary", "dim": dm, "is_real": False},
+                       {"function": "random_unitary", "args": {"kind": "unitary", "dim": dm, "is_real": False, "seed": 5}}, False, model_ok)
+        ctx.case({"kind": "unitary-nonsquare", "dim": dm}, False, "random_unitary/non-square-rejected")
+        if run.st == "ok":
+            ctx.count("random_unitary/non-square-accepted")
 
 
 # ------------------------------------------------------------------------------------------------ B. histories
@@ -534,6 +843,20 @@ MENU = [
     ("random_povm", lambda seed: random_povm(2, 2, 3, seed=seed), {"dim": 2, "num_inputs": 2, "num_outputs": 3}),
     ("random_circulant_gram_matrix", lambda seed: random_circulant_gram_matrix(4, seed=seed), {"dim": 4}),
     ("random_ginibre", lambda seed: random_ginibre(2, 3, seed=seed), {"dim_n": 2, "dim_m": 3}),
+    # every remaining branch / argument form of the generators (deepening pass): list dim, real / complex, k_param None / = dim / < dim,
+    # both metrics, Schmidt and plain branch for int and list dim
+    ("random_unitary", lambda seed: random_unitary([2, 2], False, seed=seed), {"dim": [2, 2], "is_real": False}),
+    ("random_unitary", lambda seed: random_unitary([3, 3], True, seed=seed), {"dim": [3, 3], "is_real": True}),
+    ("random_density_matrix", lambda seed: random_density_matrix(2, True, None, "haar", seed=seed), {"dim": 2, "is_real": True, "k_param": None, "distance_metric": "haar"}),
+    ("random_density_matrix", lambda seed: random_density_matrix(3, False, 3, "bures", seed=seed), {"dim": 3, "k_param": 3, "distance_metric": "bures"}),
+    ("random_density_matrix", lambda seed: random_density_matrix(3, True, 1, "haar", seed=seed), {"dim": 3, "is_real": True, "k_param": 1, "distance_metric": "haar"}),
+    ("random_psd_operator", lambda seed: random_psd_operator(2, True, seed=seed), {"dim": 2, "is_real": True}),
+    ("random_orthonormal_basis", lambda seed: random_orthonormal_basis(2, True, seed=seed), {"dim": 2, "is_real": True}),
+    ("random_state_vector", lambda seed: random_state_vector(3, False, 2, seed=seed), {"dim": 3, "k_param": 2}),
+    ("random_state_vector", lambda seed: random_state_vector([2, 3], False, 0, seed=seed), {"dim": [2, 3], "k_param": 0}),
+    ("random_state_vector", lambda seed: random_state_vector([2, 2], True, 2, seed=seed), {"dim": [2, 2], "is_real": True, "k_param": 2}),
+    ("random_state_vector", lambda seed: random_state_vector(2, True, 0, seed=seed), {"dim": 2, "is_real": True}),
+    ("random_povm", lambda seed: random_povm(3, 1, 2, seed=seed), {"dim": 3, "num_inputs": 1, "num_outputs": 2}),
 ]
 GEN_IDS = {name: i for i, name in enumerate(sorted({m[0] for m in MENU}))}
 
@@ -799,7 +1122,45 @@ def inv_sqrt(P):
     return (V * (w ** -0.5)) @ V.conj().T
 
 
-def check_pgm(ctx, rep, inst, with_opt=True):
+def pgm_model_check(ctx, rep, rec, d, rhos, probs, M, info, fname):
+    """the normaliser S the code obtained (captured scipy.linalg.fractional_matrix_power call) satisfies the hypotheses of pgm_is_povm /
+    pgm_between_sq_opt_and_opt (S Hermitian, positive semidefinite, S P S = 1), and the returned operators are the Lean model
+    `pgmElem` = S (p_i rho_i) S evaluated exactly on the same doubles"""
+    fm = rec.lapack_calls("fractional_matrix_power")
+    if len(fm) != 1 or float(fm[0][1][1]) != -0.5:
+        return broken(ctx, f"{fname}/normaliser", f"{fname}: expected one call fractional_matrix_power(P, -1/2), captured {[(c[0], c[1][1:]) for c in fm]}")
+    S = np.asarray(fm[0][2])
+    if not np.all(np.isfinite(S)):
+        return ctx.count("pgm/normaliser-non-finite")
+    tot = 64
+    ks = [int(round(p * tot)) for p in probs]
+    if any(k / tot != p for k, p in zip(ks, probs)):
+        return ctx.count("pgm/priors-not-dyadic")
+    eR, jR = dyadic([np.asarray(r, dtype=complex) for r in rhos])
+    A = [{"re": [k * z for z in j["re"]], "im": [k * z for z in j["im"]]} for k, j in zip(ks, jR)]   # p_i rho_i at exponent eR + 6, exactly
+    eA = eR + 6
+    eS, (jS,) = dyadic([S.astype(complex)])
+    res = ctx.lean().ask("c19_pgm", {"dim": d, "S": jS, "A": A})
+    nS = max(1.0, float(np.abs(S).max()))
+    anti = float(np.abs(undyadic(res["antiherm"], eS, (d, d))).max())
+    sps = undyadic(res["sps"], 2 * eS + eA, (d, d))
+    mineig = float(np.linalg.eigvalsh((S + S.conj().T) / 2).min())
+    if anti > 1e-9 * nS or float(np.abs(sps - np.eye(d)).max()) > 1e-9 * nS * nS or mineig < -1e-9 * nS:
+        ctx.count("lapack-relation/pgm-hypotheses-not-met")
+        ctx.note(f"{fname}: the captured normaliser violates the hypotheses of pgm_is_povm (|S - S^H| = {anti:.1e}, |S P S - 1| = {float(np.abs(sps - np.eye(d)).max()):.1e}, min eig {mineig:.1e})")
+    else:
+        ctx.count("lapack-relation/pgm-hypotheses-hold")
+    worst = 0.0
+    for i, m in enumerate(M):
+        want = undyadic(res["elems"][i], 2 * eS + eA, (d, d))
+        worst = max(worst, float(np.abs(want - np.asarray(m)).max()))
+    if worst > TOL_MODEL * nS * nS * d:
+        broken(ctx, f"{fname}/post-processing", f"{fname}: the returned operators differ from S (p_i rho_i) S for the captured normaliser S by {worst:.3e}")
+    else:
+        ctx.count("relation/pgm-equals-model")
+
+
+def check_pgm(ctx, rep, inst, with_opt=True, model_ok=True):
     d, states, rhos, probs, form, cplx, lam = inst
     n = len(states)
     args = {"kind": "pgm", "dim": d, "n": n, "form": form, "complex": cplx, "probs": probs, "states": [np.asarray(s).tolist() for s in states] if not cplx else
@@ -810,7 +1171,8 @@ def check_pgm(ctx, rep, inst, with_opt=True):
     # real-valued states start as complex128, so that each element independently arrives as complex128 / float64 / int64 (dtype-mixed lists)
     pst, ppr = present_obj(prng, [np.array(s, dtype=complex) for s in states]), list(probs)
     guard = Pure(pst, ppr)
-    st, M = _call(pretty_good_measurement, pst, ppr)
+    with Recorder() as rec:
+        st, M = _call(pretty_good_measurement, pst, ppr)
     impure(rep, guard, "pretty_good_measurement", info, pdescribe(pst))
     if st != "ok":
         return rep.fail("raises", f"pretty_good_measurement raised {M} on a spanning ensemble (lambda_min = {lam:.3f})", {**info, "impl": M})
@@ -824,11 +1186,34 @@ def check_pgm(ctx, rep, inst, with_opt=True):
     diff = max(float(np.abs(np.asarray(m) - w).max()) for m, w in zip(M, want))
     if diff > 1e-8:
         rep.fail("formula", f"pretty_good_measurement differs from P^-1/2 p_i rho_i P^-1/2 by {diff:.3e}", {**info, "impl": M, "expected": want})
+    if model_ok:
+        pgm_model_check(ctx, rep, rec, d, rhos, probs, M, info, "pretty_good_measurement")
+    # default argument: probs=None is the uniform prior (the ensemble with uniform priors must span for the POVM verdict to apply)
+    Pu = sum(r for r in rhos) / n
+    if float(np.linalg.eigvalsh(Pu).min()) >= 2e-2:
+        pst0 = present_obj(prng, [np.array(s, dtype=complex) for s in states])
+        guard = Pure(pst0)
+        st0, M0 = _call(pretty_good_measurement, pst0)
+        impure(rep, guard, "pretty_good_measurement", info, pdescribe(pst0))
+        stb, B0 = _call(pretty_bad_measurement, pst0)
+        stu, Mu = _call(pretty_good_measurement, pst0, n * [1 / n])
+        ctx.count("pgm/probs-None")
+        if st0 != "ok" or stb != "ok":
+            rep.fail("raises", f"pretty_good/bad_measurement(states) without priors raised {M0 if st0 != 'ok' else B0}", {**info, "impl": M0, "probs": None})
+        else:
+            b0 = povm_defects(M0, TOL_PGM, TOL_PGM) + povm_defects(B0, TOL_PGM, TOL_PGM)
+            if b0:
+                rep.fail("not-povm", f"pretty_good/bad_measurement without priors (uniform) is not a POVM: {b0[:3]}", {**info, "impl": M0, "probs": None, "defects": b0})
+            elif stu != "ok" or any(not same_bits(np.asarray(x), np.asarray(y)) for x, y in zip(M0, Mu)):
+                broken(ctx, "pretty_good_measurement/default-priors", "probs=None does not give the measurement of the uniform priors n*[1/n]")
+            elif any(float(np.abs(np.asarray(b) - (np.eye(d) - np.asarray(m)) / (n - 1)).max()) > 1e-12 for b, m in zip(B0, M0)):
+                broken(ctx, "pretty_bad_measurement/default-priors", "pretty_bad_measurement(states) is not (1 - G_i)/(n-1) of pretty_good_measurement(states)")
     # pretty bad measurement
     infob = {**info, "function": "pretty_bad_measurement", "theorem": "pbm_is_povm"}
     pst, ppr = present_obj(prng, [np.array(s, dtype=complex) for s in states]), list(probs)
     guard = Pure(pst, ppr)
-    st, B = _call(pretty_bad_measurement, pst, ppr)
+    with Recorder() as recb:
+        st, B = _call(pretty_bad_measurement, pst, ppr)
     impure(rep, guard, "pretty_bad_measurement", infob, pdescribe(pst))
     if st != "ok":
         rep.fail("raises", f"pretty_bad_measurement raised {B} on a spanning ensemble", {**infob, "impl": B})
@@ -931,7 +1316,45 @@ def gen_measure_case(rng):
     return d, rho, ops, kind, True
 
 
-def check_measure(ctx, rep, case, container, state_update, tol_arg):
+def measure_model_check(ctx, rep, d, rho, oplist, single, state_update, tol, st, out, info):
+    """the Lean model of `measure` (Born probability, `prob > tol` branch, post state `K rho K^H / prob` or zeros_like(state), completeness
+    check of the list form) on the exact dyadic values of the same inputs; borderline float comparisons (within 1e-3 of a threshold) are skipped"""
+    if len({np.asarray(o).shape for o in oplist}) != 1:
+        return ctx.count("measure-model/mixed-shapes")
+    m = np.asarray(oplist[0]).shape[0]
+    eR, (jR,) = dyadic([np.asarray(rho, dtype=complex)])
+    eK, jK = dyadic([np.asarray(o, dtype=complex) for o in oplist])
+    ft = Fraction(float(tol))
+    res = ctx.lean().ask("c19_measure", {"dim": d, "rows": m, "tol": [ft.numerator, ft.denominator], "state_update": state_update, "single": single,
+                                         "rho": {"e": eR, **jR}, "ops": [{"e": eK, **j} for j in jK]})
+    if res["raises"] == -1 or any(o["positive"] == -1 for o in res["outcomes"]):
+        return ctx.count("measure-model/borderline")
+    if res["raises"] == 1:
+        if st == "ok":
+            broken(ctx, "measure/completeness", "the Lean model of measure raises (incomplete Kraus set, state_update, all probabilities > tol), the code returns")
+        else:
+            ctx.count("measure-model/agree-raises")
+        return
+    if st != "ok":
+        return broken(ctx, "measure/raises", f"measure raised {out.split(':')[0]}, the Lean model returns")
+    outs = [out] if single else list(out)
+    if len(outs) != len(res["outcomes"]):
+        return broken(ctx, "measure/count", "number of outcomes differs from the Lean model")
+    for o, mo in zip(outs, res["outcomes"]):
+        p = float(o[0]) if state_update else float(o)
+        pm = float(Fraction(mo["prob"][0], mo["prob"][1]))
+        bad = abs(p - pm) > TOL_MODEL
+        if state_update and not bad:
+            post = np.asarray(o[1])
+            k = mo["post_dim"]
+            want = unrat(mo["post"]["re"], (k, k)) + 1j * unrat(mo["post"]["im"], (k, k))
+            bad = post.shape != want.shape or float(np.abs(post - want).max()) > 1e-10 + 1e-13 / max(pm, 1e-300)
+        if bad:
+            return broken(ctx, "measure/post-processing", f"measure differs from the Lean model (probability {p!r} vs {pm!r}" + (", or post-measurement state" if state_update else "") + ")")
+    ctx.count("relation/measure-equals-model")
+
+
+def check_measure(ctx, rep, case, container, state_update, tol_arg, model_ok=True):
     d, rho, ops, kind, complete = case
     single = not isinstance(ops, list)
     meas = ops if single else (tuple(ops) if container == "tuple" else list(ops))
@@ -951,6 +1374,8 @@ def check_measure(ctx, rep, case, container, state_update, tol_arg):
     st, out = _call(measure, prho, pmeas, **kw)
     impure(rep, guard, "measure", info, pdescribe([prho, pmeas]))
     oplist = [ops] if single else ops
+    if model_ok:
+        measure_model_check(ctx, rep, d, rho, oplist, single, state_update, tol, st, out, info)
     born = [float(np.trace(o.conj().T @ o @ rho).real) for o in oplist]
     dev = 0.0 if single else float(np.abs(sum(o.conj().T @ o for o in oplist) - np.eye(d)).max())
     if kind == "incomplete" and dev < 1e-3:
@@ -1076,14 +1501,14 @@ def run(ctx, model_ok=True):
     for i in range(40 if quick else 800):
         inst = gen_ensemble(rng, True)
         if inst is not None:
-            check_pgm(ctx, rep, inst)
+            check_pgm(ctx, rep, inst, True, model_ok)
     for i in range(4 if quick else 30):
         inst = gen_ensemble(rng, False)
         if inst is not None:
             observe_non_spanning(ctx, inst)
     for i in range(300 if quick else 8000):
         case = gen_measure_case(rng)
-        check_measure(ctx, rep, case, str(rng.choice(["list", "tuple"])), bool(rng.integers(2)), None if rng.integers(3) else 1e-8)
+        check_measure(ctx, rep, case, str(rng.choice(["list", "tuple"])), bool(rng.integers(2)), None if rng.integers(3) else 1e-8, model_ok)
     # a state of a narrower dtype than the operators / the result: integer-valued |0><0| measured in the X basis, a real state
     # measured in the Y basis (complex Kraus operators), a real diagonal state under complex unitary-rotated projectors
     sq = 1 / np.sqrt(2)
@@ -1092,10 +1517,10 @@ def run(ctx, model_ok=True):
     for rho0 in (np.array([[1, 0], [0, 0]]), np.array([[0.75, 0.25], [0.25, 0.25]])):
         for ops0 in (xb, yb):
             for upd in (True, False):
-                check_measure(ctx, rep, (2, rho0.astype(complex), [o.astype(complex) for o in ops0], "projective-mixed-dtype", True), "list", upd, None)
+                check_measure(ctx, rep, (2, rho0.astype(complex), [o.astype(complex) for o in ops0], "projective-mixed-dtype", True), "list", upd, None, model_ok)
     for i in range(150 if quick else 4000):
         check_is_povm(ctx, rep, rng)
-    ctx.extra["tolerances"] = {"generators": TOL_GEN, "trace": TOL_TRACE, "psd": TOL_PSD, "rank_eps": RANK_EPS, "pgm_pbm": TOL_PGM, "measure": TOL_MEAS, "pgm_bound_slack": 1e-4}
+    ctx.extra["tolerances"] = {"model_vs_code": TOL_MODEL, "relation_residual": TOL_REL, "generators": TOL_GEN, "trace": TOL_TRACE, "psd": TOL_PSD, "rank_eps": RANK_EPS, "pgm_pbm": TOL_PGM, "measure": TOL_MEAS, "pgm_bound_slack": 1e-4}
 
 
 def _c(z):
